@@ -1,0 +1,24 @@
+//go:build verif
+
+package hamt
+
+// Verification hooks (build tag "verif" only; see /verif/DESIGN.md).
+
+// VerifYield, when set, is called at the two points where a shard node
+// updates its memoised state (between a shard-cache miss and the cache store,
+// and before the memoised length is stored), so that a test harness can widen
+// the window in which concurrent readers overlap.
+var VerifYield func(point string)
+
+func verifYield(point string) {
+	if f := VerifYield; f != nil {
+		f(point)
+	}
+}
+
+// VerifHashNext exposes hashBits.Next for an exhaustive (offset, width) sweep:
+// it returns the i bits of b that follow the first `consumed` bits.
+func VerifHashNext(b []byte, consumed, i int) (int, error) {
+	hb := &hashBits{b: b, consumed: consumed}
+	return hb.Next(i)
+}
